@@ -8,6 +8,8 @@ error) and the reader sends that batch before stopping; a payload cut short is
 reported (E100/E101) and the RDH is still delivered (R18.2); the first bytes
 of the input are read with error propagation (F2 repaired) (R18.1).
 Not decided: equality of findings on the intact prefix (a runtime comparison)."""
+import re
+
 from ..mir import callee_of, origin_calls, show_origin
 from ..thir import Evaluator, Agg, Sym, Unsupported, vkey
 from ..facts import where
@@ -90,6 +92,11 @@ def run(ctx, rep):
                 for x, y in ((c.a[1], c.a[2]), (c.a[2], c.a[1])):
                     if isinstance(y, _A) and y.adt.endswith("ErrorKind") and "kind" in vkey(x):
                         return {y.var}
+                return None
+            if isinstance(c, _C) and c.op == "sym":
+                m_ = re.fullmatch(r"is(\w+)\((.*)\)", str(c.a[0]), re.S)
+                if m_ and "kind" in m_.group(2):
+                    return {m_.group(1)}
                 return None
             if isinstance(c, _C) and c.op == "or":
                 out_ = set()
@@ -180,31 +187,46 @@ def run(ctx, rep):
         rep.missing("R18.2", rd)
     # load_cdp: payload EOF is reported and the RDH still returned
     lc = c03.SCAN + "load_cdp"
-    tb = ev.tb(lc)
-    if tb:
-        found = {}
-        for i, nd in tb.walk():
-            if nd["k"] == "Match":
-                for a in nd["arms"]:
-                    arm = tb.arms[a]
-                    if arm["pat"]["k"] == "Variant" and arm["pat"]["vname"] == "Err" and arm.get("guard") is not None:
-                        kinds = [x.get("vname") for _, x in tb.walk(arm["guard"]) if x["k"] == "Adt" and x.get("adt", "").endswith("ErrorKind")]
-                        ks = {x["k"] for _, x in tb.walk(arm["body"])}
-                        reports = any((c.get("fn") or "").endswith("InputScanner::<R>::report") for _, c in tb.calls(arm["body"]))
-                        found[tuple(kinds)] = ("Return" not in ks, reports)
-        rep.check(found.get(("UnexpectedEof",)) == (True, True), "R18.2", "R18.2|load_cdp|payload_eof", "a payload cut short is reported (E100) and the RDH is still returned", lc,
-                  "payload-EOF arm of load_cdp: %s" % found)
-        # skip path: InvalidInput from the seek → E101, continue
-        conds = []
-        for i, nd in tb.walk():
-            if nd["k"] == "If":
-                kinds = [x.get("vname") for _, x in tb.walk(nd["cond"]) if x["k"] == "Adt" and x.get("adt", "").endswith("ErrorKind")]
-                if kinds:
-                    then_ret = any(x["k"] == "Return" for _, x in tb.walk(nd["then"]))
-                    else_ret = nd.get("else") is not None and any(x["k"] == "Return" for _, x in tb.walk(nd["else"]))
-                    conds.append((tuple(kinds), then_ret, else_ret))
-        rep.check((("InvalidInput",), False, True) in conds, "R18.2", "R18.2|load_cdp|seek_eof", "a skip past the end (InvalidInput) is reported (E101) and processing continues; other errors are returned", lc,
-                  "seek-error handling in load_cdp: %s" % conds)
+    if lc in f.fns:
+        # guarded records (if/else, early return, match guard are equivalent here): the report of [E100]/[E101] runs
+        # exactly under `kind == K`, processing continues there, and every other kind is returned
+        from ..thir import canon_guard
+        ev.watch = lambda c: c.endswith("InputScanner::<R>::report")
+        ev.watch_codes = True
+        try:
+            recs = ev.collect_ifs(lc, [Sym("self")])
+        finally:
+            ev.watch = None
+            ev.watch_codes = False
+        KIND = re.compile(r"^(Eq|Ne)\(sym\(call:std::io::error::Error::kind\((.*)\)\),ErrorKind::(\w+)\(\)\)$", re.S)
+
+        def kinds(guard):
+            pos, neg = set(), set()
+            for g in guard:
+                for part in ([g] if not g.startswith("and[") else _split_top(g[4:-1], ";")):
+                    cg_ = canon_guard(part)
+                    m_ = KIND.search(cg_)
+                    if m_ and not cg_.startswith("not "):
+                        (pos if m_.group(1) == "Eq" else neg).add(m_.group(3))
+            return pos, neg
+
+        rets = [o for o in recs if "ret" in o]
+        for code, kind, what in (("E100", "UnexpectedEof", "a payload cut short is reported (E100) and the RDH is still returned"),
+                                 ("E101", "InvalidInput", "a skip past the end (InvalidInput) is reported (E101) and processing continues; other errors are returned")):
+            cr = [o for o in recs if o.get("code") == code]
+            ok = len(cr) == 1 and kinds(cr[0]["guard"])[0] == {kind}
+            det = "code sites %d" % len(cr)
+            if ok:
+                g0 = set(canon_guard(x) for x in cr[0]["guard"])
+                # no return under the reporting condition
+                early = [o for o in rets if g0 <= set(canon_guard(x) for x in o["guard"])]
+                # the other kinds are returned
+                other = [o for o in rets if kind in kinds(o["guard"])[1] or (o["ret"].startswith("Result::Err(") and any("isErr(" in x for x in o["guard"]) and kind not in kinds(o["guard"])[0] and len(o["guard"]) >= len(cr[0]["guard"]) - 0)]
+                rep_calls = [o for o in recs if "call" in o and set(canon_guard(x) for x in o["guard"]) == g0]
+                ok = not early and bool(other) and len(rep_calls) == 1
+                det = "returns under the reporting condition: %d, returns for other kinds: %d, report calls: %d" % (len(early), len(other), len(rep_calls))
+            key = "R18.2|load_cdp|payload_eof" if code == "E100" else "R18.2|load_cdp|seek_eof"
+            rep.check(ok, "R18.2", key, what, lc, "%s handling in load_cdp: %s" % (code, det))
     else:
         rep.missing("R18.2", lc)
     # ---------- R18.4 the truncation messages keep the canonical shape (the statistics thread parses `^0x[0-9A-F]+`)
@@ -213,6 +235,21 @@ def run(ctx, rep):
     rep.check(not bad, "R18.4", "R18.4|truncation_message_shape", "[E100]/[E101] start with an upper-hex offset like every other error (sortable by the statistics thread)", "input_scanner.rs",
               "truncation message(s) %s do not start with `{pos:#X}: `: ErrorStats::sort_error_msgs_by_mem_pos panics on them and the findings for the intact prefix are lost" % bad)
     # analysis: every received batch is processed (recv loop) — shared with C17 R17.2
+
+
+def _split_top(text, sep):
+    """split on `sep` outside any bracket"""
+    out, depth, start = [], 0, 0
+    for i, ch in enumerate(text):
+        if ch in "([{":
+            depth += 1
+        elif ch in ")]}":
+            depth -= 1
+        elif ch == sep and depth == 0:
+            out.append(text[start:i])
+            start = i + 1
+    out.append(text[start:])
+    return out
 
 
 def _local_used(b, l):
